@@ -444,9 +444,20 @@ def handle : Handler := fun m j =>
       let x ← desModel (canonDModel mdl)
       let y ← serModel x
       pure (eModel y)
-    return answerD (answerW res (wfModel mdl) (eModel (normModel mdl)) (wfModelW mdl) (eModel (normModelW mdl)) resFold
+    return (answerD (answerW res (wfModel mdl) (eModel (normModel mdl)) (wfModelW mdl) (eModel (normModelW mdl)) resFold
       (wfModelX mdl) (eModel (normModelX mdl))) res (wfModelX mdl) (eModel (normModelX mdl))
-      (wfModelD mdl) (eModel (normModelD mdl)) resD
+      (wfModelD mdl) (eModel (normModelD mdl)) resD).mergeObj (
+      -- E8: `wf9` / `thm9` = hypothesis and statement of `C02_model_ir9`, `wf9w` / `thm9w` of `C02_model_ir9_wide`,
+      -- `sub9` = `C02_ir9_subsumes`
+      let eqr := fun (n : ModelP) => match res with
+        | .ok r => r == eModel n
+        | .error _ => false
+      obj [("wf9", Json.bool (wfModel9 mdl)), ("thm9", Json.bool (!wfModel9 mdl || eqr (normModel9 mdl))),
+           ("wf9w", Json.bool (wfModel9W mdl)), ("thm9w", Json.bool (!wfModel9W mdl || eqr (normModel9W mdl))),
+           ("wf9d", Json.bool (wfModel9D mdl)), ("thm9d", Json.bool (!wfModel9D mdl || eqr (normModel9D mdl))),
+           ("sub9", Json.bool ((!wfModel mdl || (wfModel9 mdl && eModel (normModel9 mdl) == eModel (normModel mdl)))
+              && (!wfModelW mdl || (wfModel9W mdl && eModel (normModel9W mdl) == eModel (normModelW mdl)))
+              && (!wfModelD mdl || (wfModel9D mdl && eModel (normModel9D mdl) == eModel (normModelD mdl)))))])
   | _ => none
 
 end IrVerif.Drive.Serde
